@@ -523,7 +523,7 @@ pub fn generate(kind: &str, thorough: bool, seed: u64, corpus: &str, out: &mut O
             let tmp = tmpdir();
             let rules = ["UniqueFragmentNames", "KnownFragmentNames", "KnownTypeNames", "FragmentsOnCompositeTypes",
                          "NoUnusedFragments", "NoFragmentsCycle", "PossibleFragmentSpreads"];
-            let sdl = format!("{}\nscalar Custom\nenum E {{ X }}\ninput In {{ x: Int }}\ninterface I {{ a: Int  t: T }}\ninterface J implements I {{ a: Int  t: T }}\ntype T implements I & J {{ a: Int  t: T  i: I  j: J  u: U }}\ntype V {{ a: Int }}\ntype W implements I {{ a: Int  t: T }}\nunion U = T | V\nunion U2 = V | W\ntype Query {{ a: Int  t: T  i: I  j: J  u: U  u2: U2  v: V  w: W }}\n", schemas::PRELUDE);
+            let sdl = format!("{}\nscalar Custom\nenum E {{ X }}\ninput In {{ x: Int }}\ninterface I {{ a: Int  t: T }}\ninterface J implements I {{ a: Int  t: T }}\ninterface K {{ a: Int }}\ninterface L {{ a: Int }}\ntype T implements I & J & K {{ a: Int  t: T  i: I  j: J  u: U  k: K }}\ntype V {{ a: Int }}\ntype W implements I {{ a: Int  t: T }}\ntype X implements K & L {{ a: Int }}\nunion U = T | V\nunion U2 = V | W\ntype Query {{ a: Int  t: T  i: I  j: J  u: U  u2: U2  v: V  w: W  k: K  l: L  x: X }}\n", schemas::PRELUDE);
             let si = gen::SchemaInfo::new("frags", &sdl);
             out.schema(&si);
             // (A) fragment graphs: edge j -> k of fragment j is a spread of Fk nested `depth` levels deep
@@ -590,8 +590,8 @@ pub fn generate(kind: &str, thorough: bool, seed: u64, corpus: &str, out: &mut O
                 }
             }
             // (B) type conditions of every kind at every kind of enclosing type
-            let parents = ["", "t", "i", "j", "u", "u2", "v", "w", "nope"];
-            let conds = ["Query", "T", "V", "W", "I", "J", "U", "U2", "E", "In", "Custom", "Int", "Unknown", "__Type", "__Schema", "__Foo", "__typename"];
+            let parents = ["", "t", "i", "j", "u", "u2", "v", "w", "k", "l", "x", "nope"];
+            let conds = ["Query", "T", "V", "W", "X", "I", "J", "K", "L", "U", "U2", "E", "In", "Custom", "Int", "Unknown", "__Type", "__Schema", "__Foo", "__typename"];
             for p in parents.iter() {
                 let wrap = |inner: &str| if p.is_empty() { format!("{{ {} }}", inner) } else { format!("{{ {} {{ {} }} }}", p, inner) };
                 crate::valcases::rules_case(&si, &wrap("... { __typename }"), &rules, &tmp, out);
@@ -599,7 +599,7 @@ pub fn generate(kind: &str, thorough: bool, seed: u64, corpus: &str, out: &mut O
                 for c in conds.iter() {
                     crate::valcases::rules_case(&si, &wrap(&format!("... on {} {{ __typename }}", c)), &rules, &tmp, out);
                     crate::valcases::rules_case(&si, &format!("{} fragment F on {} {{ __typename }}", wrap("...F"), c), &rules, &tmp, out);
-                    for c2 in ["T", "I", "U", "V", "Unknown"] {
+                    for c2 in ["T", "I", "K", "U", "V", "Unknown"] {
                         crate::valcases::rules_case(&si, &wrap(&format!("... on {} {{ ... on {} {{ __typename }} }}", c, c2)), &rules, &tmp, out);
                         crate::valcases::rules_case(&si, &format!("{} fragment F on {} {{ ...G }} fragment G on {} {{ __typename }}", wrap("...F"), c, c2), &rules, &tmp, out);
                     }
